@@ -246,6 +246,7 @@ def check(tier: str) -> Report:
                 )
         if len(rep.samples) < 10:
             rep.sample({"row": tag, "stencil": res["stencil"], "column_sums": res["sums"][:4]})
+    nine_point_rows(rep, ix)
     rep.floor("conservation rows", len(rep.analysed.get("rows", [])), 25)
     rep.assumptions += [
         "cell volume = product over axes of cell_volume_data (GridBase.cell_volumes uses reduce(np.outer, ...); exactness of the factors is C12)",
@@ -254,3 +255,75 @@ def check(tier: str) -> Report:
         "every axis has at least two cells",
     ]
     return rep
+
+
+# =============================================================================
+# 9-point Laplacian (non-default corner weight): small-model column sums
+# =============================================================================
+def nine_point_rows(rep: Report, ix):
+    """The 2d Cartesian 9-point stencil reads corner virtual points, which the kernel fills
+    itself (make_corner_point_setter_2d).  Its coefficients do not depend on the cell, so a
+    4x4 grid realises every combination of first/interior/last cells: the kernel is
+    interpreted on that concrete shape (loops unrolled), virtual points are eliminated
+    through the extracted boundary formulas, and every column sum must vanish."""
+    from ..fx import SymArray
+    from ..kernels import backend_model
+
+    cfg = read_config_defaults(ix)
+    reg = [r for r in registrations(ix, "NumbaBackend", "pde/backends/numba/operators/") if r.grid_cls == "CartesianGrid" and r.name == "laplace"][0]
+    n = 4
+    for w in (sp.Rational(1, 3), sp.Rational(1, 2)):
+        for kinds in itertools.product(("neumann", "periodic"), repeat=2):
+            tag = f"CartesianGrid/2:laplace-9-point(w={w}):{'/'.join(kinds)}"
+            grid = make_grid_model(ix, "CartesianGrid", 2, periodic=[k == "periodic" for k in kinds])
+            grid._attrs["shape"] = (n, n)
+            grid._attrs["_shape_full"] = (n + 2, n + 2)
+            cfg2 = dict(cfg)
+            cfg2["operators.cartesian.laplacian_2d_corner_weight"] = w
+            try:
+                it, closure = run_factory(ix, reg.factory, grid, {}, cfg2)
+                arr = SymArray("arr", shape=(n + 2, n + 2))
+                out = SymArray("out", shape=(n, n))
+                it.call(closure, (arr, out), {})
+            except (Unsupported, RaisedInCode) as e:
+                raise AnalysisError(f"{tag}: {e}") from e
+            outs = it.final_stores("out")
+            if len(outs) != n * n:
+                raise AnalysisError(f"{tag}: {len(outs)} output stores, expected {n * n}")
+            # eliminate the (non-corner) virtual points through the boundary formulas
+            sub = {}
+            A = sp.Function("arr")
+            for axis in range(2):
+                for upper in (False, True):
+                    f, which = ghost_rule(ix, kinds[axis], make_grid_model(ix, "CartesianGrid", 2), axis, upper)
+                    g_idx = n + 1 if upper else 0
+                    src = (n if upper else 1) if which == "adjacent" else (1 if upper else n)
+                    for t in range(1, n + 1):
+                        gi = (g_idx, t) if axis == 0 else (t, g_idx)
+                        si = (src, t) if axis == 0 else (t, src)
+                        sub[A(*gi)] = f * A(*si)
+            hs = grid._attrs["discretization"].items
+            V = hs[0] * hs[1]
+            total = sp.Integer(0)
+            for idx, term in outs.items():
+                total += V * sp.sympify(term)
+            total = sp.expand(total.xreplace(sub).xreplace(sub))
+            left = [c for c in total.atoms(sp.core.function.AppliedUndef) if c.func.__name__ == "arr"]
+            bad = []
+            for c in left:
+                i, j = (int(a) for a in c.args)
+                co = sp.simplify(total.coeff(c))
+                if not (1 <= i <= n and 1 <= j <= n):
+                    bad.append((str(c), "virtual point not eliminated"))
+                elif co != 0:
+                    bad.append((str(c), str(co)))
+            rep.saw("rows", tag)
+            rep.oblige(f"{tag}: all {n * n} column sums vanish", not bad, bad[:4])
+            if bad:
+                funcs = sorted({s.func for s in it.stores if s.base in ("out", "arr")})
+                rep.violation(
+                    "C05.column-sum",
+                    f"{'+'.join(funcs)}::laplace-9-point::{'/'.join(kinds)}",
+                    f"{tag}: the volume-weighted sum of the 9-point Laplacian keeps the contributions {bad[:4]} (4x4 model grid, corner virtual points as filled by "
+                    "the kernel's own corner-point setter): not conservative",
+                )
